@@ -56,6 +56,13 @@ def run(tier, seed):
         for i in range(n):
             sspec, dspec = ew.gen_world(r, with_big=(i % 3 == 0))
             affected = add_conflicts(r, sspec, dspec)
+            if i % 4 == 1:
+                # a chain of EMPTY directories below a path that is a regular file in the destination:
+                # only directory-creation tasks fail (no file descendant reports the fault for them)
+                top = "blk%d" % i
+                sspec += [{"p": top, "k": "d"}, {"p": top + "/e1", "k": "d"}, {"p": top + "/e1/e2", "k": "d"}]
+                dspec.append({"p": top, "k": "f", "data": b"in the way", "mt_ns": 10**9})
+                affected |= {top, top + "/e1", top + "/e1/e2"}
             fl = ew.gen_flags(r, allow_delete=False)
             fl["maxerr"] = r.choice([100, 100, 0, 1, 2])
             base = os.path.join(sc.dir, "w%d" % i)
